@@ -1,6 +1,7 @@
 import Genq.Props.C18
 open Genq.Files
 open Genq.Errors
+open Genq
 #print axioms C18_pos_string_plain
 #print axioms C18_pos_string_literal
 #print axioms C18_atoi_samples
@@ -9,3 +10,5 @@ open Genq.Errors
 #print axioms C18_wrapped_position_survives
 #print axioms C18_validator_error_position
 #print axioms C18_outer_explicit_position_replaces_inner_witness
+#print axioms C18_parse_tie
+#print axioms C18_errors_tie
